@@ -1061,10 +1061,12 @@ func bsStateConformance(c *Ctx, bsems [][4]string, open []string) {
 }
 
 // htmlClosedOnFirstLine: the last non-blank line of the document both starts an HTML block of
-// types 2 or 3 (comment, processing instruction) and holds its end marker.
+// types 1-5 and holds its end marker.
 func htmlClosedOnFirstLine(doc string) bool {
 	lines := strings.Split(strings.TrimRight(doc, "\n"), "\n")
 	last := strings.TrimLeft(lines[len(lines)-1], " >-+*1234567890.)\t")
 	return (strings.HasPrefix(last, "<!--") && strings.Contains(last, "-->")) || (strings.HasPrefix(last, "<?") && strings.Contains(last, "?>")) ||
-		(strings.HasPrefix(last, "<pre") && strings.Contains(last, "</pre>"))
+		(strings.HasPrefix(last, "<pre") && strings.Contains(last, "</pre>")) ||
+		(strings.HasPrefix(last, "<![CDATA[") && strings.Contains(last, "]]>")) ||
+		(strings.HasPrefix(last, "<!") && !strings.HasPrefix(last, "<!--") && !strings.HasPrefix(last, "<![") && strings.Contains(last, ">"))
 }
